@@ -42,24 +42,37 @@ def check(run):
     if len(with_fk) > n_proj:
         with_fk = rng.sample(with_fk, n_proj)
     projects = [wrap_project(s["s"]) for s in sample + with_fk]
+    # the very long / very deep inputs are slow but terminate (the closing-tag search is quadratic): they get their own, generous
+    # time limit; everything else is small and must answer quickly, so that a genuine hang costs seconds, not minutes
+    def _is_big(c):
+        nm = (c.get("abs") or {}).get("name", "")
+        return any(nm.startswith(p) for p in ("many-", "nested-", "unclosed-", "open-braces-")) and int(nm.rsplit("-", 1)[1]) >= 3000
+    big = [c for c in robust if _is_big(c)]
+    robust = [c for c in robust if not _is_big(c)]
     for build, variant in ((("json",), "json"), (("json", "quote"), "json-quote")):
         tag = "_" + variant
         loadfam.replay_load(run, strings, "Trace_Robust", "Trace_Robust.cfg", build_features=build, variant=variant,
                             key_of=_key, tag=tag + "_values")
         loadfam.replay_load(run, robust + projects, "Trace_Robust", "Trace_Robust.cfg", build_features=build, variant=variant,
-                            key_of=_key, tag=tag + "_projects", per_case_timeout=600)
+                            key_of=_key, tag=tag + "_projects", per_case_timeout=30)
+        if big:
+            loadfam.replay_load(run, big, "Trace_Robust", "Trace_Robust.cfg", build_features=build, variant=variant,
+                                key_of=_key, tag=tag + "_big", per_case_timeout=900)
     # the build-script API parses with skip_icu_cfg = true
     loadfam.replay_load(run, robust + projects[:500], "Trace_Robust", "Trace_Robust.cfg", skip_icu=True,
-                        key_of=_key, tag="_buildapi", per_case_timeout=600)
+                        key_of=_key, tag="_buildapi", per_case_timeout=30)
     # code generation (the real generator of leptos_i18n_macro, in-process) on the same projects
     loadfam.replay_load(run, robust + projects, "Trace_Robust", "Trace_Robust.cfg", package="drv_codegen",
-                        key_of=_key, tag="_codegen", per_case_timeout=600)
+                        key_of=_key, tag="_codegen", per_case_timeout=60)
+    if big:
+        loadfam.replay_load(run, big, "Trace_Robust", "Trace_Robust.cfg", package="drv_codegen",
+                            key_of=_key, tag="_codegen_big", per_case_timeout=900)
     run.exhaustive = True
     run.notes["strings"] = len(strings)
     run.notes["adversarial_projects"] = len(robust)
     run.assumptions = ["all strings of at most MaxLex lexemes over a 16-lexeme adversarial alphabet ({{ }} < > / $t( ) , { } \" a e-acute SP NBSP emoji)",
                        "model-generated robustness testing: bounded alphabet and length, not a proof",
-                       "a violation is identified by its input (the same input is sent through two parser builds, the build API and the code generator); the time limit per project is 10 minutes: the closing-tag search is quadratic in the number of tags, which is slow for 30 000 components (about a minute) but terminates",
+                       "a violation is identified by its input (the same input is sent through two parser builds, the build API and the code generator); the time limit is 30 s per project (60 s for code generation) and 15 minutes for the inputs of 3 000 pieces / levels and more: the closing-tag search is quadratic in the number of tags, which is slow for 30 000 components (about a minute) but terminates",
                        "code generation: the `load_locales` / `utils` modules of leptos_i18n_macro are included by path into a driver and the real load_locales() runs in-process on every project"]
     return run.finish("every string of the bounded adversarial language through ParsedValue::new (two builds) and, one per project, "
                       "through parse_locales; plus grammar-aware adversarial projects; non-trivial: strings containing a delimiter",
